@@ -4,7 +4,7 @@ CONSTANTS
   Pas = {0, 1, 2, 3, 4, 5, 6, 7}
   Laws = {"gauss", "exp", "sersic"}
   Fixes = {"none", "center", "pa", "eps"}
-  Modes = {"bilinear", "nearest", "linear_growth", "maxrit", "mean", "median"}
+  Modes = {"bilinear", "nearest", "linear_growth", "maxrit", "mean", "median", "linear_geometry"}
   Frames = {"square", "wide", "tall", "nearleft", "nearbottom", "large", "largeleft", "largebottom"}
   Starts = {"near", "perp"}
   Emit = TRUE
